@@ -4,18 +4,19 @@
 # pass with it, the demonstration fails with it and passes without it.
 set -u
 D="$(readlink -f "$1")"
-WT=/tmp/mutcheck/confirm-wt
+CR="${CONFROOT:-/tmp/mutcheck}"; mkdir -p "$CR"
+WT="$CR/confirm-wt"
 FEAT="--no-default-features --features allow_filesystem,collisions,stroke_planning"
-export CARGO_TARGET_DIR=/tmp/mut/target-shared CARGO_NET_OFFLINE=true
+export CARGO_TARGET_DIR="${CONFTARGET:-/tmp/mut/target-shared}" CARGO_NET_OFFLINE=true
 if [ ! -d "$WT" ]; then git -C /repo worktree add -q --detach "$WT" HEAD || exit 2; fi
 git -C "$WT" reset -q --hard >/dev/null 2>&1; git -C "$WT" checkout -q --detach "$(git -C /repo rev-parse HEAD)"; git -C "$WT" reset -q --hard; git -C "$WT" clean -fdq
 mkdir -p "$WT/tests"
 DEMOS=$(cd "$D" && ls demo_*.rs 2>/dev/null)
 [ -z "$DEMOS" ] && { echo "no demo_*.rs in $D"; exit 2; }
 for f in $DEMOS; do cp "$D/$f" "$WT/tests/"; done
-run_demos() { local rc=0; for f in $DEMOS; do (cd "$WT" && cargo test --offline $FEAT --test "${f%.rs}" >"/tmp/mutcheck/demo.log" 2>&1) || rc=1; done; return $rc; }
-echo -n "demo WITHOUT change: "; if run_demos; then echo pass; else echo "FAIL (unexpected)"; tail -5 /tmp/mutcheck/demo.log; fi
+run_demos() { local rc=0; for f in $DEMOS; do (cd "$WT" && cargo test --offline $FEAT --test "${f%.rs}" >"$CR/demo.log" 2>&1) || rc=1; done; return $rc; }
+echo -n "demo WITHOUT change: "; if run_demos; then echo pass; else echo "FAIL (unexpected)"; tail -5 $CR/demo.log; fi
 git -C "$WT" apply "$D/patch.diff" || { echo "patch does not apply"; exit 2; }
 echo -n "baseline lib tests WITH change: "; (cd "$WT" && cargo test --offline --lib $FEAT 2>&1 | grep -E "^test result" | head -1)
-echo -n "demo WITH change: "; if run_demos; then echo "pass (unexpected)"; else echo "fail (expected)"; grep -E "panicked|assert" /tmp/mutcheck/demo.log | head -3; fi
+echo -n "demo WITH change: "; if run_demos; then echo "pass (unexpected)"; else echo "fail (expected)"; grep -E "panicked|assert" $CR/demo.log | head -3; fi
 git -C "$WT" checkout -q -- .; git -C "$WT" clean -fdq
